@@ -244,6 +244,10 @@ def write_site_programs():
                 else:
                     src = 'empty show(int v) { %s(v); }\nempty @is_you(int n) {\n  int x0 = 3;\n  %s\n  show(n);\n  %s\n}\n' % (w, decl, dump)
                 out.append(('wsite:%s:%s:%s' % (aname, w, where), src))
+    # the entry point re-entered recursively while it holds a dynamic array: every activation has its own stack check
+    out.append(('early_reenter:byte:canvas', "empty @is_you(int n) {\n  byte canvas[8];\n  for (int i = 0; i < 8; i += 1) { canvas[i] = (65 + i) is byte; }\n"
+                "  if (n > 0) { if (n < 40) { @is_you(n - 1); } }\n  write(canvas); write(n %% 10);\n}\n" % ()))
+    out.append(('early_reenter:int:lit', "empty @is_you(int n) {\n  int[] keep = [n, 7, 9];\n  if (n > 0) { if (n < 40) { @is_you(n - 1); } }\n  write(keep[1]); write(keep[2]); write(keep[0] %% 10);\n}\n" % ()))
     return out
 
 
